@@ -113,6 +113,46 @@ def menu_for(n):
     return m
 
 
+def _call_tag():
+    """(function, field name) of the library code that asked for a random
+    number: lets an oracle restrict deviations to the draws of given fields."""
+    f = sys._getframe(2)
+    while f is not None:
+        fn = f.f_code.co_filename
+        if not (fn.endswith("rand_state.py") or fn.endswith("mc/common.py")):
+            break
+        f = f.f_back
+    if f is None:
+        return ("?", None)
+    loc = f.f_locals
+    fld = loc.get("f", None) or loc.get("uf", None)
+    name = None
+    if fld is not None and hasattr(fld, "name"):
+        try:
+            name = fld.fullname if hasattr(fld, "fullname") else fld.name
+        except Exception:
+            name = getattr(fld, "name", None)
+    if isinstance(name, str):
+        name = name.replace(".<unknown-array>", "")
+    ranges = None
+    rl = loc.get("range_l", None)
+    if rl is not None and "t_range" not in loc and "bit_pattern" not in loc:
+        try:
+            if len(rl) > 1:
+                ranges = tuple((int(r[0]), int(r[1])) for r in rl)   # this draw picks one of these ranges
+        except Exception:
+            ranges = None
+    if f.f_code.co_name == "swizzle_field_l" and "idx" not in loc and "field_l" in loc:
+        name = None
+        # this draw picks which of the remaining fields is swizzled next (at most 4 per group)
+        try:
+            ranges = ("pick",) + tuple(str(getattr(x, "fullname", getattr(x, "name", "?"))).replace(".<unknown-array>", "")
+                                       for x in loc["field_l"])
+        except Exception:
+            ranges = None
+    return (f.f_code.co_name, name, ranges)
+
+
 class Script(object):
     """One execution's sequence of environment answers.
 
@@ -126,15 +166,21 @@ class Script(object):
         self.i = 0
         self.wide = False
         self.extra_menu = extra_menu   # callable(lo,hi)->iterable of values
+        self.strategy = None           # callable(tag, lo, arity) -> answer index (witness-directed runs)
 
     def choose(self, n, lo=None):
         if n <= 0:
             raise HarnessError("choice point with arity %d" % n)
+        tag = _call_tag()
         if self.i < len(self.prefix):
             c = self.prefix[self.i]
             if not (0 <= c < n):
                 raise HarnessError(
                     "replay divergence: answer %d at point %d, arity %d" % (c, self.i, n))
+        elif self.strategy is not None:
+            c = self.strategy(tag, lo, n)
+            if c is None or not (0 <= c < n):
+                c = 0
         else:
             c = 0
         alts = None
@@ -146,14 +192,14 @@ class Script(object):
                     if lo <= v < lo + n:
                         alts.append(v - lo)
                 alts = sorted(set(alts))
-        self.trace.append((c, n, alts))
+        self.trace.append((c, n, alts, tag))
         self.i += 1
         return c
 
     def prob(self):
         p = Fraction(1)
-        for c, n, _ in self.trace:
-            p /= n
+        for t in self.trace:
+            p /= t[1]
         return p
 
     def choices(self):
@@ -207,6 +253,38 @@ class SRandState(RandState):
         return self
 
 
+def witness_strategy(target, priority=()):
+    """Strategy for a witness-directed execution: every range pick / bit
+    pattern / direct draw of a field named in target (fullname -> value) is
+    answered with the target's value; everything else takes the default.
+    The execution's recorded plain choice sequence replays without it."""
+    def strat(tag, lo, n):
+        fn, name, ranges = tag
+        if fn == "swizzle_field_l" and ranges and ranges[0] == "pick":
+            names = ranges[1:]
+            for pname in priority:
+                if pname in names:
+                    return names.index(pname)
+            return None
+        if name is None or name not in target:
+            return None
+        v = target[name]
+        if fn == "create_rand_domain_constraint":
+            if ranges is not None:
+                for i, (a, b) in enumerate(ranges):
+                    if a <= v <= b:
+                        return i
+                return None
+            if lo is not None and lo <= v < lo + n:
+                return v - lo
+            return None
+        if fn == "randomize":           # unconstrained field drawn directly
+            if lo is not None and lo <= v < lo + n:
+                return v - lo
+        return None
+    return strat
+
+
 def install(obj, script):
     """Attach a scripted random state to a randobj through the public API."""
     obj.set_randstate(SRandState(script))
@@ -220,7 +298,7 @@ class Exec(object):
     __slots__ = ("prefix", "choices", "trace", "obs", "prob", "dev", "wide")
 
 
-def explore(run, bound=None, cap=None, extra_menu=None, state=None):
+def explore(run, bound=None, cap=None, extra_menu=None, state=None, point_filter=None):
     """Depth-first exploration of environment-answer sequences.
 
     run(script) -> observation (any value).  Yields Exec records.
@@ -255,7 +333,9 @@ def explore(run, bound=None, cap=None, extra_menu=None, state=None):
         n += 1
         if bound is None or dev < bound:
             for i in range(len(s.trace) - 1, len(pre) - 1, -1):
-                c, ar, alts = s.trace[i]
+                c, ar, alts, tag = s.trace[i]
+                if point_filter is not None and not point_filter(tag):
+                    continue
                 if alts is None:
                     alts = range(ar)
                 base = x.choices[:i]
